@@ -71,6 +71,7 @@ partial def exprOf (fk : Array FKind) (j : Json) (refsMode : Bool := false) : Ex
       let w := if -(2 ^ 31 : Int) ≤ v ∧ v < (2 ^ 31 : Int) then 32 else Nat.log2 v.natAbs + 2
       pure (.lit v true w)
   | "lit" => pure (.lit (← getI j "v") (← getB j "s") (← getN j "w"))
+  | "enumlit" => pure (.lit (← getI j "v") true 32)      -- `EnumInfo.e2e`: a signed 32-bit literal
   | "fld" => pure (.fld (← getN j "i"))
   | "bin" => do
       let op ← binOpOf (← getS j "op")
